@@ -58,8 +58,8 @@ def run_one(ob, tier, seed):
     if kind == "jsym":
         opts = dict(ob.get("opts") or {})
         if tier == "thorough" and ob.get("cvc5", True):
-            opts.update(dump_dir=os.path.join(runner_scratch(), "smt-" + ob["name"]), dump_every=ob.get("dump_every", 997),
-                        dump_max=4)
+            opts.update(dump_dir=os.path.join(runner_scratch(), "smt-" + ob["name"]), dump_every=ob.get("dump_every", 97),
+                        dump_max=3)
         res = runner.run_obligation(ob["name"], ob["spec"], ob["bounds"], opts, shard_depth=ob.get("shard_depth"))
         if opts.get("dump_dir"):
             res["cvc5"] = runner.cvc5_diff(opts["dump_dir"])
